@@ -312,3 +312,42 @@ Print Assumptions c04_code_direct_is_model.
 Theorem c04_code_left_usize : forall left, left < 18446744073709551616 -> gen_sized_left_usize left = left.
 Proof. exact gen_sized_left_usize_spec. Qed.
 Print Assumptions c04_code_left_usize.
+
+(* ================================================================== the writer's code itself (whole functions translated from the source) *)
+(** [theories/Gen2.v] is regenerated on every run by tools/rs2coq2.py from src/body.rs ([BodyWriter::write], [finish],
+    [consume_direct_write], [write_chunk] and the queries; the output [Writer] is the pair (bytes available, bytes written), writes
+    are all-or-nothing as std::io::Cursor + try_write make them); proofs/Gen2_equiv_body.v proves the translation equivalent to the
+    model's [writer_write] / [writer_direct].  c04_code_sized_write is c04_write's core about the code: a Content-Length writer moves
+    exactly min(output room, input, remaining) bytes, verbatim, appends them to what was written, counts the remaining length down by
+    that and is ended exactly when it reaches zero; the [assert!(success)] of the Rust function cannot fire.  Trusted: the translator. *)
+From Hoot Require Import GenLib Gen2.
+From Hoot.proofs Require Import Gen2_equiv_body Gen2_transport.
+Theorem c04_code_write_equiv : forall m e input avail out0,
+  sized_fits m avail input ->
+  wr_rel avail out0 (gen_bw_write m e input avail out0) (writer_write {| w_mode := m; w_ended := e |} input avail).
+Proof. exact gen_bw_write_equiv. Qed.
+Theorem c04_code_sized_write : forall lft e input avail out0,
+  lft < U64_LIMIT ->
+  let n := N.min (N.min avail (len input)) lft in
+  gen_bw_write (SSized lft) e input avail out0
+  = Ok (SSized (lft - n), (if lft - n =? 0 then true else e), avail - len (take n input), out0 ++ take n input, n).
+Proof.
+  intros lft e input avail out0 Hl n.
+  destruct (gen_write_ok_of_model (SSized lft) e input avail out0
+              {| w_mode := SSized (lft - n); w_ended := if lft - n =? 0 then true else e |} n (take n input)) as [H _];
+    [left; exact Hl|reflexivity|exact H].
+Qed.
+Theorem c04_code_direct_equiv : forall m e amount,
+  dw_rel (gen_bw_consume_direct_write m e amount) (writer_direct {| w_mode := m; w_ended := e |} amount).
+Proof. exact gen_bw_direct_equiv. Qed.
+Theorem c04_code_left_to_send : forall m e, gen_bw_left_to_send m e = left_to_send {| w_mode := m; w_ended := e |}.
+Proof. exact gen_bw_left_to_send_eq. Qed.
+Example c04_code_nonvacuous :
+  gen_bw_write (SSized 4) false (s2b "abcdef") 3 (s2b "HEAD") = Ok (SSized 1, false, 0, s2b "HEADabc", 3)
+  /\ gen_bw_write (SSized 1) false (s2b "d") 10 [] = Ok (SSized 0, true, 9, s2b "d", 1).
+Proof. vm_compute. split; reflexivity. Qed.
+Print Assumptions c04_code_write_equiv.
+Print Assumptions c04_code_sized_write.
+Print Assumptions c04_code_direct_equiv.
+Print Assumptions c04_code_left_to_send.
+Print Assumptions c04_code_nonvacuous.
